@@ -7,6 +7,8 @@ import (
 	"go/parser"
 	"go/token"
 	"go/types"
+	"math"
+	"math/big"
 	"strings"
 
 	"golang.org/x/tools/go/packages"
@@ -154,7 +156,9 @@ func checkC20(c *Ctx, r *Report) {
 	checkVariance(c, r)
 	checkRecordPattern(c, r)
 	checkVarianceCallers(c, r)
-	r.Note("not decided: the numeric contract itself (scale invariance, exact score) beyond the term identities below; RecordPattern's run-length loop is loop-carried and outside the foldable fragment")
+	checkRunsWhole(c, r)
+	checkVarianceWhole(c, r)
+	r.Note("not decided: the numeric contract for arbitrary counter vectors (floating-point scores are compared with the exact rational reference only on the enumerated small vectors); row lengths beyond the folded ones follow from the same loop shape but are not enumerated")
 }
 
 // accumulators: `acc += param[idx]` inside a loop, for the given parameter.
@@ -562,4 +566,248 @@ func scoreComparedStrictly(p *packages.Package, fd *ast.FuncDecl, call *ast.Call
 		return true
 	})
 	return cnt > 0 && !bad
+}
+
+// S-RUNS: RecordPattern / RecordPatternInReverse folded as whole functions against the run-length model
+func checkRunsWhole(c *Ctx, r *Report) {
+	r.Rule("S-RUNS", "RecordPattern(row, start, counters) returns exactly the lengths of the successive same-colour runs from start (the last one may end with the row) or NotFound when the row ends first; RecordPatternInReverse(row, start, counters) returns the len(counters) runs that precede the run containing start, or NotFound unless a further run lies to their left: both functions are folded (bounded unrolling over a model row) on every row of 1..8 pixels, every start and 1..4 counters, and compared with the run-length model; no pixel outside the row is read", 2)
+	maxLen := 8
+	if c.Tier == "thorough" {
+		maxLen = 11
+	}
+	for _, name := range []string{"RecordPattern", "RecordPatternInReverse"} {
+		fd, p := c.funcDeclOf("oned", name)
+		key := "oned." + name + "/whole"
+		if fd == nil {
+			r.AnchorLost("S-RUNS", key, "function not found")
+			continue
+		}
+		r.Analysed(key)
+		bad := ""
+		n := 0
+		for L := 1; L <= maxLen && bad == ""; L++ {
+			for bitsV := 0; bitsV < 1<<uint(L) && bad == ""; bitsV++ {
+				row := make([]bool, L)
+				for i := range row {
+					row[i] = bitsV>>uint(i)&1 == 1
+				}
+				// run decomposition
+				var runStart, runLen []int
+				for i := 0; i < L; i++ {
+					if i > 0 && row[i] == row[i-1] {
+						runLen[len(runLen)-1]++
+					} else {
+						runStart = append(runStart, i)
+						runLen = append(runLen, 1)
+					}
+				}
+				runOf := func(pos int) int {
+					for j := range runStart {
+						if pos >= runStart[j] && pos < runStart[j]+runLen[j] {
+							return j
+						}
+					}
+					return -1
+				}
+				for start := 0; start <= L && bad == ""; start++ {
+					if name == "RecordPatternInReverse" && start == L {
+						continue // the contract requires start inside the row
+					}
+					for nc := 1; nc <= 4 && bad == ""; nc++ {
+						n++
+						// model
+						var want []int64
+						wantErr := false
+						if name == "RecordPattern" {
+							if start >= L {
+								wantErr = true
+							} else {
+								j := runOf(start)
+								first := runStart[j] + runLen[j] - start
+								avail := []int64{int64(first)}
+								for k := j + 1; k < len(runLen); k++ {
+									avail = append(avail, int64(runLen[k]))
+								}
+								if len(avail) < nc {
+									wantErr = true
+								} else {
+									want = avail[:nc]
+								}
+							}
+						} else {
+							j := runOf(start)
+							if j < nc+1 {
+								wantErr = true
+							} else {
+								for k := j - nc; k < j; k++ {
+									want = append(want, int64(runLen[k]))
+								}
+							}
+						}
+						counters := &Val{K: VList, Local: true}
+						for k := 0; k < nc; k++ {
+							counters.L = append(counters.L, vint(7)) // stale content must be overwritten
+						}
+						outside := false
+						h := &rpf{unroll: 64, callHook: func(rr *rpf, call *ast.CallExpr, callee types.Object) (*Val, bool) {
+							if isMethodNamed(callee, "", "BitArray", "GetSize") {
+								return vint(int64(L)), true
+							}
+							if isMethodNamed(callee, "", "BitArray", "Get") {
+								i := rr.expr(call.Args[0])
+								if i.K != VInt || i.I < 0 || i.I >= int64(L) {
+									outside = true
+									return vbool(false), true
+								}
+								return vbool(row[i.I]), true
+							}
+							return errCtorHook(rr, call, callee)
+						}}
+						res, err := c.rpfCall(fd, p, []*Val{{K: VNil}, vint(int64(start)), counters}, h)
+						desc := fmt.Sprintf("row %s, start %d, %d counters", rowString(row), start, nc)
+						switch {
+						case err != nil:
+							bad = "?" + desc + ": " + err.Error()
+						case outside:
+							bad = desc + ": a pixel outside the row is read"
+						case len(res) != 1:
+							bad = "?" + desc + ": unexpected result shape"
+						case (res[0].K != VNil) != wantErr:
+							bad = fmt.Sprintf("%s: returns %s, the run-length model says %s", desc, map[bool]string{true: "an error", false: "success"}[res[0].K != VNil], map[bool]string{true: "the row ends first (NotFound)", false: fmt.Sprintf("runs %v", want)}[wantErr])
+						case !wantErr:
+							got, _ := listInts(counters)
+							if fmt.Sprint(got) != fmt.Sprint(want) {
+								bad = fmt.Sprintf("%s: counters %v, the runs are %v", desc, got, want)
+							}
+						}
+					}
+				}
+			}
+		}
+		r.Extra("runs_folded_"+name, n)
+		reportFold(r, c, "S-RUNS", key, fd.Pos(), bad)
+	}
+}
+
+func rowString(row []bool) string {
+	s := ""
+	for _, b := range row {
+		if b {
+			s += "#"
+		} else {
+			s += "."
+		}
+	}
+	return s
+}
+
+// S-VARWHOLE: PatternMatchVariance folded as a whole function against the exact rational reference
+func checkVarianceWhole(c *Ctx, r *Report) {
+	r.Rule("S-VARWHOLE", "PatternMatchVariance(counters, pattern, limit) folded (float64 arithmetic as in Go, loops unrolled) on every counter vector with entries 0..4 for four representative patterns and three limits, and on their multiples by 2, 3 and 7: +Inf exactly when there are fewer pixels than modules or a run deviates by more than limit * unit, otherwise the total absolute deviation divided by the total width (reference in exact rational arithmetic, tolerance 1e-9; vectors sitting exactly on the limit are compared only where the float computation is exact), and the score of k*c equals the score of c", 1)
+	fd, p := c.funcDeclOf("oned", "PatternMatchVariance")
+	key := "oned.PatternMatchVariance/whole"
+	if fd == nil {
+		r.AnchorLost("S-VARWHOLE", key, "function not found")
+		return
+	}
+	r.Analysed(key)
+	patterns := [][]int64{{1, 1, 1, 1}, {3, 2, 1, 1}, {1, 1, 3}, {2, 1, 2, 2}}
+	limits := []float64{0.5, 0.7, 0.48}
+	hooks := &rpf{unroll: 64, callHook: func(rr *rpf, call *ast.CallExpr, callee types.Object) (*Val, bool) {
+		if fn, ok := callee.(*types.Func); ok && fn.Pkg() != nil && fn.Pkg().Path() == "math" && fn.Name() == "Inf" {
+			return &Val{K: VFloat, F: math.Inf(1)}, true
+		}
+		return nil, false
+	}}
+	bad := ""
+	n := 0
+	for _, pat := range patterns {
+		if bad != "" {
+			break
+		}
+		patLen := int64(0)
+		for _, x := range pat {
+			patLen += x
+		}
+		k := len(pat)
+		total := 1
+		for i := 0; i < k; i++ {
+			total *= 5
+		}
+		for code := 0; code < total && bad == ""; code++ {
+			base := make([]int64, k)
+			x := code
+			for i := 0; i < k; i++ {
+				base[i] = int64(x % 5)
+				x /= 5
+			}
+			for _, mult := range []int64{1, 2, 3, 7} {
+				for _, lim := range limits {
+					if bad != "" {
+						continue
+					}
+					cs := make([]int64, k)
+					tot := int64(0)
+					for i := range cs {
+						cs[i] = base[i] * mult
+						tot += cs[i]
+					}
+					// exact reference
+					inf := tot < patLen
+					onLimit := false
+					num := new(big.Rat) // sum of |c - p*unit|
+					if !inf {
+						unit := big.NewRat(tot, patLen)
+						limR := new(big.Rat).SetFloat64(lim)
+						maxDev := new(big.Rat).Mul(limR, unit)
+						for i := range cs {
+							dev := new(big.Rat).Sub(big.NewRat(cs[i], 1), new(big.Rat).Mul(big.NewRat(pat[i], 1), unit))
+							dev.Abs(dev)
+							switch dev.Cmp(maxDev) {
+							case 1:
+								inf = true
+							case 0:
+								onLimit = true
+							}
+							num.Add(num, dev)
+						}
+					}
+					if onLimit && !(tot%patLen == 0 && lim == 0.5) {
+						continue // float rounding decides; not a contract question
+					}
+					n++
+					mk := func(xs []int64) *Val {
+						v := &Val{K: VList}
+						for _, e := range xs {
+							v.L = append(v.L, vint(e))
+						}
+						return v
+					}
+					res, err := c.rpfCall(fd, p, []*Val{mk(cs), mk(pat), {K: VFloat, F: lim}}, hooks)
+					desc := fmt.Sprintf("counters %v, pattern %v, limit %v", cs, pat, lim)
+					if err != nil {
+						bad = "?" + desc + ": " + err.Error()
+						continue
+					}
+					if len(res) != 1 || res[0].K != VFloat {
+						bad = "?" + desc + ": unexpected result"
+						continue
+					}
+					got := res[0].F
+					if inf {
+						if !math.IsInf(got, 1) {
+							bad = fmt.Sprintf("%s: score %v, the contract says +Inf (%s)", desc, got, map[bool]string{true: "fewer pixels than modules", false: "a run deviates by more than the limit"}[tot < patLen])
+						}
+						continue
+					}
+					want, _ := new(big.Rat).Quo(num, big.NewRat(tot, 1)).Float64()
+					if math.IsInf(got, 0) || math.Abs(got-want) > 1e-9 {
+						bad = fmt.Sprintf("%s: score %v, total deviation / total width is %v", desc, got, want)
+					}
+				}
+			}
+		}
+	}
+	r.Extra("variance_vectors_folded", n)
+	reportFold(r, c, "S-VARWHOLE", key, fd.Pos(), bad)
 }
